@@ -782,3 +782,59 @@ Proof.
     rewrite Hn. intros o k Hv Hk. rewrite Ev in Hv. destruct (Z o k Hv Hk) as (Z1 & Z2). split; auto.
     rewrite Ec, Er. exact Z2.
 Qed.
+
+(** ---- everything together, for every label sequence ---- *)
+Theorem ZG_reachable a b c d ls :
+  ZG (run_labels (init_state a b c d) ls) (snapshot a b c d ls).
+Proof.
+  unfold snapshot.
+  assert (G : forall ls sg, LkS (fst sg) -> FI (fst sg) -> ZG (fst sg) (snd sg) ->
+              ZG (fst (grun sg ls)) (snd (grun sg ls))).
+  { clear. induction ls as [|l ls IH]; intros sg HL HF Z; simpl; auto.
+    change (ZG (fst (grun (gstep sg l) ls)) (snd (grun (gstep sg l) ls))).
+    apply IH; simpl; [apply LkS_step | apply FI_step | apply ZG_kind; auto; apply step_kind]; auto. }
+  rewrite <- (grun_fst ls (init_state a b c d, (comp (init_state a b c d), None))).
+  apply G; simpl; [apply LkS_init | apply FI_init |].
+  intros o k Hv. discriminate.
+Qed.
+
+(** ---- list facts ---- *)
+Definition no_init (l : list event) : Prop := forall r, In (EvHook r) l -> h_hook r <> HInitRun.
+Definition is_init (e : event) (n : Z) : Prop := exists r, e = EvHook r /\ h_hook r = HInitRun /\ h_runno r = Some n.
+
+Lemma t_init_app_noinit l tr : no_init l -> t_init (l ++ tr) = t_init tr.
+Proof.
+  induction l as [|e l IH]; intros H; simpl; auto.
+  assert (H' : no_init l) by (intros r Hin; apply H; right; exact Hin).
+  destruct e as [| r | |]; auto. pose proof (H r (or_introl eq_refl)) as Hr.
+  destruct (h_hook r); auto; congruence.
+Qed.
+
+Lemma no_init_rev l : no_init l -> no_init (rev l).
+Proof. intros H r Hin. apply H. apply in_rev. exact Hin. Qed.
+
+Lemma resets_app_init l a n tr m : is_init a n ->
+  In (Some m) (resets_since (l ++ a :: tr)) -> exists r, In (EvHook r) l /\ h_hook r = HReset /\ h_start r = Some m.
+Proof.
+  intros (ra & -> & Ha & _). induction l as [|e l IH]; simpl.
+  - rewrite Ha. intros [].
+  - intros Hin. destruct e as [| r | |]; try (destruct (IH Hin) as (r0 & H1 & H2); exists r0; auto; fail).
+    destruct (h_hook r) eqn:Er; try (destruct (IH Hin) as (r0 & H1 & H2); exists r0; auto; fail).
+    + destruct Hin.
+    + destruct Hin as [Hin|Hin].
+      * exists r. auto.
+      * destruct (IH Hin) as (r0 & H1 & H2). exists r0. auto.
+Qed.
+
+Lemma rev_mid_split (h1 : list event) a mid : rev (h1 ++ a :: mid) = rev mid ++ a :: rev h1.
+Proof. rewrite rev_app_distr. simpl. rewrite <- app_assoc. reflexivity. Qed.
+
+Lemma history_split2 s h1 a mid e h2 :
+  history s = h1 ++ a :: mid ++ e :: h2 -> history s = (h1 ++ a :: mid) ++ e :: h2.
+Proof. intros ->. rewrite <- app_assoc. reflexivity. Qed.
+
+Lemma t_init_after_init h1 a n mid : is_init a n -> no_init mid -> t_init (rev (h1 ++ a :: mid)) = Some n.
+Proof.
+  intros (ra & -> & Ha & Hn) Hm. rewrite rev_mid_split, t_init_app_noinit by (apply no_init_rev; exact Hm).
+  simpl. rewrite Ha. exact Hn.
+Qed.
